@@ -70,6 +70,15 @@ CHECKS = {
    note="Trusted: CBMC+MiniSat, extractor rules, EV_FMT/EV_ARG abstraction of boost::format, unique symbol names for debugInfoMap, instrEnumToStr table. The symbol-table round trip "
         "through the binary file (emitDebugInfo / load) is exercised only by the native stage (real hexasm -> real hexsim -t, every trace line checked against an ISA run): sampled, not proved.",
    technique="CBMC function/loop contracts + contract harness on mechanically extracted C; native trace comparison on the real tools"),
+ "C07": dict(cat="proof", design="DESIGN.md §4 C07",
+   text="The folding switches of xcmp's ConstProp are extracted as fold_bin/fold_un; the run-time side is the REAL xcmp's output (compiler rebuilt from the working tree each run) executed "
+        "on the extracted hexsim step with the operand variables' DATA words symbolic (banked memory, cbmc --paths lifo, loop-free programs fully unwound with unwinding assertions): "
+        "for every operator, for all 2^64 operand pairs, exit value == fold(op,a,b); for a family of placements (v op (c1 op2 c2), (c1 op2 c2) op v, v op c, c op v, val names, nested) "
+        "the literal-constant image equals the all-variables image for ALL v. Proof over operand values; shapes and embedded constants are a bounded family (labelled so). "
+        "The known relational-overflow divergence is a split obligation reported as KNOWN-FINDING.",
+   note="Trusted: CBMC+MiniSat path exploration, extractor rules, xcmp binary as generator of run-time code, C02/C12 for the simulator. Folder's int +,-,unary- verified under two's-complement "
+        "wrap (signed-overflow check off for this unit: UB by the standard, C09's business). and/or/~ over boolean operands.",
+   technique="CBMC symbolic execution of real compiler output on mechanically extracted simulator step vs extracted folder; replay on real xcmp + hexsim"),
 }
 NA = {
  "C01": "compiler correctness over all X programs: needs an X semantics and a simulation proof over 3200 lines of STL C++ that CBMC cannot parse; no per-function contract expresses it (DESIGN §5)",
@@ -81,7 +90,6 @@ NA = {
 }
 PENDING = {
  "C06": "claimed by design (DESIGN §4); check not built yet in this round",
- "C07": "claimed by design (DESIGN §4); check not built yet in this round",
 }
 def main():
     checks = []
